@@ -147,7 +147,20 @@ def basis(draw, nmin=1, nmax=4, lmax=4, first_ls=(), kmax=4, mmax=3, types=TYPES
     out = []
     for i in range(n):
         l = first_ls[i] if i < len(first_ls) else draw(st.integers(0, lmax))
+        if i >= max(1, len(first_ls)) and out and draw(st.integers(0, 4)) == 0:
+            # "the same element on another atom": an exact copy of an earlier shell (same l, exponents, coefficients and
+            # type) on this shell's centre - molecules repeat elements, random shells never coincide
+            src = out[draw(st.integers(0, len(out) - 1))]
+            cp = dict(src, coord=[float(v) for v in cs[i]], replicated=True)
+            out.append(cp)
+            continue
         out.append(draw(shell(l, cs[i], kmax=kmax, mmax=mmax, types=types, exp_lo=exp_lo, exp_hi=exp_hi)))
+    if len(out) >= 4 and len(first_ls) <= 2 and draw(st.integers(0, 2)) == 0:
+        # a whole two-shell "atom" repeated: shells 2,3 become copies of shells 0,1 displaced rigidly
+        d = [draw(coordinate(5.0)) for _ in range(3)]
+        if any(abs(x) > 1e-6 for x in d):
+            for k in (0, 1):
+                out[2 + k] = dict(out[k], coord=[a + b for a, b in zip(out[k]["coord"], d)], replicated=True)
     return out
 
 
@@ -197,7 +210,13 @@ def sym_matrix(draw, n, psd=None):
         B = [[draw(el) for _ in range(n)] for _ in range(r)]
         return [[sum(B[k][i] * B[k][j] for k in range(r)) for j in range(n)] for i in range(n)], True
     A = [[draw(el) for _ in range(n)] for _ in range(n)]
-    return [[(A[i][j] + A[j][i]) / 2 for j in range(n)] for i in range(n)], False
+    G = [[(A[i][j] + A[j][i]) / 2 for j in range(n)] for i in range(n)]
+    if draw(st.integers(0, 3)) == 0:
+        # exactly zero diagonal entries with non-zero couplings (transition / difference densities, "hollow" matrices)
+        for i in range(n):
+            if draw(st.booleans()):
+                G[i][i] = 0.0
+    return G, False
 
 
 @st.composite
